@@ -35,17 +35,23 @@ def run(run_, ctx):
     pc = F.crate("postcard")
     # C13.X semantic cross-check on the summaries actually found in the tree (not on the expectation file)
     fns = {summ.fn_key(f): f for f in glue.fns_of_group(pc, "fixint")}
+    fns_spec = glue.load2("A").get("fixint", {})
     for t in TYPES:
         for order in ("LE", "BE"):
-            ks = [k for k in fns if k.startswith("<fixint::%s<%s> as " % (order, t)) and k.endswith("::serialize")]
-            kd = [k for k in fns if k.startswith("<fixint::%s<%s> as " % (order, t)) and k.endswith("::deserialize")]
+            ks = [(fns[k], None) for k in fns if k.startswith("<fixint::%s<%s> as " % (order, t)) and k.endswith("::serialize")]
+            kd = [(fns[k], None) for k in fns if k.startswith("<fixint::%s<%s> as " % (order, t)) and k.endswith("::deserialize")]
+            # one generic impl for the wrapper serves every integer type: judged at this type
+            if not ks:
+                ks = [x for x in [glue.generic_instance(pc, "<fixint::%s<%s> as Serialize>::serialize" % (order, t), fns_spec)] if x[0] is not None]
+            if not kd:
+                kd = [x for x in [glue.generic_instance(pc, "<fixint::%s<%s> as Deserialize>::deserialize" % (order, t), fns_spec)] if x[0] is not None]
             key = "%s<%s>" % (order, t)
             if len(ks) != 1 or len(kd) != 1:
                 run_.bad("X", key, "expected exactly one Serialize and one Deserialize impl, found %d/%d" % (len(ks), len(kd)))
                 continue
             ren = glue.renames(F, pc, glue.load2("A"))
-            so = summ2.summarize(F, fns[ks[0]], renames=ren)["outcomes"]
-            do = summ2.summarize(F, fns[kd[0]], renames=ren)["outcomes"]
+            so = summ2.summarize(F, ks[0][0], renames=ren, root_subst=ks[0][1])["outcomes"]
+            do = summ2.summarize(F, kd[0][0], renames=ren, root_subst=kd[0][1])["outcomes"]
             ls = " ".join(o["text"] for o in so)
             ld = " ".join(o["text"] for o in do)
             probs = []
@@ -68,7 +74,7 @@ def run(run_, ctx):
             if re.search(r"serialize_[ui](16|32|64|128)|varint", ls + ld):
                 probs.append("a varint path is reachable")
             run_.check(not probs, "X", key, probs[0] if probs else "ser/de agree on %s order, %d bytes" % (order, nb),
-                       fns[ks[0]].where(), found=probs)
+                       ks[0][0].where(), found=probs)
     run_.floor("X", 16)
     # the `with` modules use the matching wrapper
     for mod, wrap in (("le", "LE"), ("be", "BE")):
@@ -78,7 +84,9 @@ def run(run_, ctx):
             if f is None:
                 run_.bad("W", k, "module function not found")
                 continue
-            l = " ".join(o["text"] for o in summ2.summarize(F, f)["outcomes"])
+            # the wrapper's own impl is judged above; here only *which* wrapper the module function goes through
+            l = " ".join(o["text"] for o in summ2.summarize(F, f, inline=lambda g, ev: summ2.inline_local(g, ev) and not
+                                                             re.match(r"^fixint::(LE|BE)<", g.impl_self or ""))["outcomes"])
             run_.check(("fixint::%s<T>" % wrap) in l and ("fixint::%s<T>" % ("BE" if wrap == "LE" else "LE")) not in l,
                        "W", k, "`%s` module must go through the %s wrapper" % (mod, wrap), f.where(), found=l)
     run_.floor("W", 4)
